@@ -21,6 +21,7 @@ from .Connectable import (
     Wire,
 )
 from .errors import (
+    FieldReassignError,
     InvalidAPICallError,
     InvalidConnectionError,
     NotElaboratedError,
@@ -196,6 +197,14 @@ class Component( ComponentLevel7 ):
       NamedObject._elaborate_stack.pop()
 
     added_components = obj._collect_all_single( lambda x: isinstance( x, Component ) )
+
+    # The same check as in elaborate(): a hardware object that was put into
+    # an already assigned list was never named nor constructed
+    for x in obj._collect_all_single():
+      if not hasattr( x._dsl, "full_name" ):
+        raise FieldReassignError( f"{type(x).__name__} object {x!r} in the hierarchy of {type(obj).__name__} has no name: "
+                                   "it was added to a list after the list had been assigned to a field.\n"
+                                   "Suggestion: build the list first, then assign it ( s.x = [ ... ] ), or use s.x += [ obj ]." )
 
     # First elaborate all functions to spawn more named objects
     for c in added_components:
